@@ -125,7 +125,7 @@ def run_one(case, mod=None):
 
 
 def _job(args):
-    prop, base_seed, i, tier, budget_deadline = args
+    prop, base_seed, i, tier, budget_deadline, saturated = args
     t0 = time.time()
     faulthandler.dump_traceback_later(300, exit=False)
     try:
@@ -139,6 +139,15 @@ def _job(args):
         summ['index'] = i
         if i < 3 or viols:
             summ['sample'] = sample_of(case, res)
+        if viols and saturated:
+            # the same known finding has already been confirmed (minimised
+            # and matched) several times in this batch: do not spend the
+            # budget on minimising yet another instance
+            k = match_known(prop, viols[0], load_known())
+            if k is not None and k['id'] in saturated:
+                summ['known_id'] = k['id']
+                summ['probable_known'] = True
+                return summ
         if viols:
             doc = triage(case, res, viols)
             summ['case'] = doc
@@ -178,9 +187,9 @@ def _regress_job(args):
             summ['regression'] = os.path.basename(path)
             if viols:
                 d2 = strip_case(case)
-                d2['schedule'] = [list(x) for x in res.sim.schedule]
+                d2['schedule'] = export_schedule(res)
                 d2['expect'] = {'violation': viols[0]['invariant'],
-                                'event_log_sha1': res.sim.log_digest()}
+                                'event_log_sha1': log_digest(res)}
                 d2['_triage'] = 'confirmed'
                 d2['_signature'] = viols[0].get('signature', '')
                 summ['case'] = d2
@@ -219,15 +228,15 @@ def triage(case, res, viols):
     mod = _MOD
     inv = viols[0]['invariant']
     doc = strip_case(case)
-    doc['schedule'] = [list(x) for x in res.sim.schedule]
+    doc['schedule'] = export_schedule(res)
     doc['expect'] = {'violation': inv,
-                     'event_log_sha1': res.sim.log_digest()}
+                     'event_log_sha1': log_digest(res)}
     # 1. same-process re-run from the recorded schedule
     r2, v2 = run_one(copy.deepcopy(doc))
     if not any(v['invariant'] == inv for v in v2):
         doc['_triage'] = 'harness:nondeterministic'
         return doc
-    if r2.sim.log_digest() != doc['expect']['event_log_sha1']:
+    if log_digest(r2) != doc['expect']['event_log_sha1']:
         doc['_triage'] = 'harness:nondeterministic-log'
         return doc
     doc['_triage'] = 'confirmed'
@@ -249,6 +258,18 @@ def triage(case, res, viols):
     return doc
 
 
+def export_schedule(res):
+    if res.extra.get('multi_schedule') is not None:
+        return {'multi': res.extra['multi_schedule']}
+    return [list(x) for x in res.sim.schedule]
+
+
+def log_digest(res):
+    if res.extra.get('multi_digest') is not None:
+        return res.extra['multi_digest']
+    return res.sim.log_digest() if res.sim else ''
+
+
 def still_fails(doc, inv, mod):
     try:
         res, viols = run_one(copy.deepcopy(doc), mod)
@@ -267,10 +288,11 @@ def minimise(doc, inv, mod, deadline):
     # schedule -> default choices
     cand = copy.deepcopy(best)
     cand['schedule'] = []
-    r = still_fails(cand, inv, mod)
+    multi = isinstance(best.get('schedule'), dict)
+    r = None if multi else still_fails(cand, inv, mod)
     if r is not None:
         best = cand
-    else:
+    elif not multi:
         # ddmin-ish: reset chunks of the schedule to default choice
         sched = best['schedule']
         n = 8
@@ -314,7 +336,7 @@ def minimise(doc, inv, mod, deadline):
                 if time.time() >= deadline:
                     break
                 ok = None
-                for sched in ([], None):
+                for sched in ((None,) if multi else ([], None)):
                     c2 = copy.deepcopy(cand)
                     c2['schedule'] = sched
                     if still_fails(c2, inv, mod) is not None:
@@ -328,9 +350,9 @@ def minimise(doc, inv, mod, deadline):
     final = copy.deepcopy(best)
     r = still_fails(final, inv, mod)
     if r is not None:
-        final['schedule'] = [list(x) for x in r.sim.schedule]
+        final['schedule'] = export_schedule(r)
         final['expect'] = {'violation': inv,
-                           'event_log_sha1': r.sim.log_digest()}
+                           'event_log_sha1': log_digest(r)}
         final['_triage'] = 'confirmed'
         return final
     return doc
@@ -373,7 +395,7 @@ def replay_main(prop, mod, path):
         doc = json.load(f)
     res, viols = run_one(doc, mod)
     exp = doc.get('expect', {})
-    digest = res.sim.log_digest() if res.sim else ''
+    digest = log_digest(res)
     print('replay status=%s digest=%s expected=%s' % (
         res.status, digest, exp.get('event_log_sha1')))
     if res.status != 'ok':
@@ -441,6 +463,8 @@ def main(prop, module_name, argv=None):
     pending = set()
     next_i = 0
     stop_submitting = False
+    saturated = set()
+    known_counts = {}
     reg_dir = os.path.join(ROOT, 'regressions')
     if os.path.isdir(reg_dir):
         for fn in sorted(os.listdir(reg_dir)):
@@ -452,7 +476,7 @@ def main(prop, module_name, argv=None):
             while (not stop_submitting and next_i < runs and
                    len(pending) < workers * 2 and time.time() < deadline):
                 fut = pool.submit(_job, (prop, args.seed, next_i, tier,
-                                         deadline))
+                                         deadline, sorted(saturated)))
                 pending.add(fut)
                 next_i += 1
             if not pending:
@@ -469,6 +493,12 @@ def main(prop, module_name, argv=None):
                          'concurrent_steps': 0, 'wall': 0, 'probes': {},
                          'nontrivial': False, 'quiescent': ''}
                 results.append(s)
+                if s.get('violations') and s.get('known_id') and \
+                        not s.get('probable_known'):
+                    kid = s['known_id']
+                    known_counts[kid] = known_counts.get(kid, 0) + 1
+                    if known_counts[kid] >= 3:
+                        saturated.add(kid)
                 if s.get('violations'):
                     viol_docs.append(s)
                     unknown = [x for x in viol_docs if not x.get('known_id')]
@@ -502,9 +532,15 @@ def finish(prop, mod, tier, args, results, viol_docs, t_start):
     known_hits = {}
     nondet = []
     os.makedirs(REPLAY_DIR, exist_ok=True)
+    known_by_id = dict((k['id'], k) for k in known)
     for s in viol_docs:
         doc = s.get('case') or {}
         v0 = s['violations'][0]
+        if s.get('probable_known'):
+            k = known_by_id.get(s['known_id'])
+            if k is not None:
+                known_hits.setdefault(k['id'], [k, 0])[1] += 1
+            continue
         if doc.get('_triage') != 'confirmed':
             nondet.append(s)
             continue
